@@ -31,16 +31,18 @@ def gen_case(rng, tier):
     nproc = rng.choice([1, 2, 2, 3, 4, 8])
     nkeys = rng.choice([1, 2, 3])
     progs = []
+    pool = rng.random() < 0.5          # values repeat (A writes v, B writes w, A writes v again)
     for p in range(nproc):
         ops = []
         for i in range(rng.randrange(3, 13 if nproc <= 4 else 7)):
             r = rng.random()
             k = rng.randrange(nkeys)
             if r < 0.3:
-                ops.append(['set', k, f'p{p}v{i}'])
+                ops.append(['set', k, f'v{rng.randrange(3)}' if pool else f'p{p}v{i}'])
             elif r < 0.45:
                 ks = rng.sample(range(nkeys), rng.randrange(1, nkeys + 1))
-                ops.append(['bulk', [[kk, f'p{p}b{i}k{kk}'] for kk in ks]])
+                ops.append(['bulk', [[kk, f'v{rng.randrange(3)}' if pool else f'p{p}b{i}k{kk}']
+                                     for kk in ks]])
             elif r < 0.85:
                 ops.append(['get', k])
             else:
